@@ -23,7 +23,7 @@ func HarnessC07AutoDiscover() {
 		}
 	}
 	enc := svPick("encrypted", 2) == 1
-	c := &Client{}
+	c := &Client{host: hxHosts[svPick("host", len(hxHosts))]}
 	got, err := c.authTypeAutoDiscover(supported, enc)
 	if err != nil {
 		svReach("nothing-selected")
